@@ -18,7 +18,7 @@ def pre_build(ctx):
 
 THEOREMS = [
     "Dfols.C02.gen_evalLoops", "Dfols.C02.gen_sample_points", "Dfols.C02.C02_evaluate_objective", "Dfols.C02.C02_x0_block",
-    "Dfols.C02.C02_loop_refines_acceptor", "Dfols.C02.C02_hard_restart_guard",
+    "Dfols.C02.C02_loop_refines_acceptor", "Dfols.C02.C02_x0_refines_acceptor", "Dfols.C02.C02_hard_restart_guard",
     "Dfols.C02.C02_budget",
     "Dfols.C02.C02_result_counters",
     "Dfols.C02.C02_numbering",
